@@ -643,6 +643,31 @@ ref("fixpoint-test-as-ne", ["C10", "C05"], "the fixpoint test written as `if exp
                 break;
             }
 """))
+mut("C01", "pipe-lookahead-by-byte", "R01-4|parsers::parser_line::parse_line|char-index-as-byte-offset",
+    "the `||` look-ahead of the tokenizer peeks as_bytes()[i + 1] with a character index",
+    (P, """                if i + 1 < count_chars && line.chars().nth(i + 1).unwrap() == '|' {""",
+     """                if i + 1 < count_chars && line.as_bytes()[i + 1] as char == '|' {"""))
+ref("lookahead-skip-next", ["C01", "C03", "C05"], "chars().nth(i + 1) written as chars().skip(i + 1).next()",
+    (P, """                    let c_next = match line.chars().nth(i + 1) {""",
+     """                    let c_next = match line.chars().skip(i + 1).next() {"""))
+ref("width-accounting-unconditional", ["C05", "C20"], "extra_bytes += c.len_utf8() - 1 without the `> 1` test",
+    ("src/completers/mod.rs", """        let bytes_c = c.len_utf8();
+        if bytes_c > 1 {
+            extra_bytes += bytes_c - 1;
+        }
+""", """        extra_bytes += c.len_utf8() - 1;
+"""))
+mut("C20", "width-accounting-after-continue", "R20-5|completers::escaped_word_start|width-accounting",
+    "quote characters are skipped before the byte correction is updated (a typographic quote is 3 bytes)",
+    ("src/completers/mod.rs", """        if !with_quote && !found_bs && (c == '"' || c == '\\'') {
+            with_quote = true;
+            ch_quote = c;
+        }""", """        if !with_quote && !found_bs && (c == '"' || c == '\\'' || c == '\\u{201c}') {
+            with_quote = true;
+            ch_quote = c;
+            continue;
+        }"""))
+
 # ------------------------------------------------------------------ C13
 mut("C13", "env-resets-tag", "R13-2", "expand_env drops the quote tag of the token it rewrites",
     (S, '''    for (i, text) in buff.iter().rev() {
